@@ -27,6 +27,6 @@ suite="green"; grep -E '^(--- FAIL|panic:)' "$OUT/suite.log" | grep -v TestRunIn
 grep -q "build failed\|cannot\|undefined:" "$OUT/suite.log" && grep -q "^FAIL.*\[build failed\]" "$OUT/suite.log" && suite="BUILD-FAILED"
 run_demo "$OUT/demo_patched.log"; patched_rc=$?
 VERIF_REPO="$WT" VERIF_OUT="$OUT" setsid /verif/check.sh "$PROP" "$TIER" > "$OUT/check.log" 2>&1 &
-cpid=$!; ( sleep 3000; kill -- -$cpid 2>/dev/null ) & wpid=$!; wait $cpid; crc=$?; kill $wpid 2>/dev/null
+cpid=$!; ( sleep 3000; kill -- -$cpid 2>/dev/null ) >/dev/null 2>&1 & wpid=$!; wait $cpid; crc=$?; kill $wpid 2>/dev/null; pkill -P $wpid sleep 2>/dev/null
 det="MISSED(rc=$crc)"; [ $crc -eq 1 ] && grep -q "^VIOLATION property=$PROP" "$OUT/check.log" && det="DETECTED: $(grep -m1 -A1 '^VIOLATION' "$OUT/check.log" | tail -1 | cut -c1-160)"
 echo "$D [$PROP $TIER]: suite=$suite demo(clean rc=$clean_rc, patched rc=$patched_rc) check=$det"
